@@ -654,6 +654,9 @@ def r01_caches(ctx, tom):
     # a memo that nothing invalidates answers from before the edit
     from .c02 import r02h
     r02h(ctx)
+    # a setter that attaches the caller's own cell or row although it was asked to copy lets a later use of that object move or change what the grid holds (shared with C10)
+    from .c10 import r10h
+    r10h(ctx)
     # the bulk editors of the grid read their rows through Table.traverse: rows that are mis-stamped, skipped, or aliases of one another are
     # written back to the wrong place / several places (R08f is a necessary condition of the grid model as well)
     from .c08 import r08f
